@@ -138,6 +138,32 @@ func (p *Program) GlobalConst(g *ssa.Global) (string, bool) {
 						if !isC || idx < 0 || idx >= arr.Len() || y.Referrers() == nil {
 							return "", false
 						}
+						// an element that is a struct literal of constants: {f0,f1,..}
+						if st, isStruct := arr.Elem().Underlying().(*types.Struct); isStruct {
+							fields := make([]string, st.NumFields())
+							for i := range fields {
+								fields[i] = "zero"
+							}
+							for _, r2 := range *y.Referrers() {
+								fa, isFA := r2.(*ssa.FieldAddr)
+								if !isFA || fa.Referrers() == nil {
+									return "", false
+								}
+								for _, r3 := range *fa.Referrers() {
+									sf, isSt := r3.(*ssa.Store)
+									if !isSt || sf.Addr != ssa.Value(fa) {
+										return "", false
+									}
+									e, isC := constOf(sf.Val)
+									if !isC {
+										return "", false
+									}
+									fields[fa.Field] = e
+								}
+							}
+							elems[idx] = "{" + strings.Join(fields, ",") + "}"
+							continue
+						}
 						for _, r2 := range *y.Referrers() {
 							st, isSt := r2.(*ssa.Store)
 							if !isSt || st.Addr != ssa.Value(y) {
@@ -224,50 +250,11 @@ func (p *Program) GlobalConst(g *ssa.Global) (string, bool) {
 				}
 				p.globalRx[gl] = name + "‹" + strings.Join(ents, ",") + "›"
 			case *ssa.Slice:
-				al, isAl := x.X.(*ssa.Alloc)
-				if !isAl || x.Low != nil || x.High != nil || al.Referrers() == nil {
-					continue
-				}
-				arr, isArr := al.Type().(*types.Pointer).Elem().Underlying().(*types.Array)
-				if !isArr {
-					continue
-				}
-				elems := make([]string, arr.Len())
-				ok := true
-				for _, ref := range *al.Referrers() {
-					switch y := ref.(type) {
-					case *ssa.IndexAddr:
-						idx, isC := ConstInt(y.Index)
-						if !isC || idx < 0 || idx >= arr.Len() || y.Referrers() == nil {
-							ok = false
-							continue
-						}
-						for _, r2 := range *y.Referrers() {
-							st, isSt := r2.(*ssa.Store)
-							if !isSt || st.Addr != ssa.Value(y) {
-								ok = false
-								continue
-							}
-							if s, isC := constOf(st.Val); isC {
-								elems[idx] = s
-							} else {
-								ok = false
-							}
-						}
-					case *ssa.Slice, *ssa.DebugRef:
-					default:
-						ok = false
-					}
-				}
-				for _, e := range elems {
-					if e == "" {
-						ok = false
-					}
-				}
-				if ok {
-					// rendered like the literal itself: a list written in place and the same list kept in
-					// a private table are the same thing
-					p.globalRx[gl] = "{" + strings.Join(elems, ",") + "}"
+				// a slice literal of constants (or of struct literals of constants), rendered like
+				// the literal itself: a list written in place and the same list kept in a private
+				// table are the same thing
+				if s, ok := constOf(x); ok {
+					p.globalRx[gl] = s
 				}
 			}
 		}
